@@ -716,7 +716,9 @@ func runStore(cfg Cfg) {
 		for i, n := 0, 3+r.Intn(20); i < n; i++ {
 			q := storeRandReq(r, m)
 			q.Panics = false
-			q.Sub, q.Lazy = Pick(r, []int{0, 0, 1, 2, 3}), r.Chance(30)
+			// (Sub = 3, a handler registering a route on its own Mux, is implemented but not generated: C05 assumes
+			// registrations between requests, and a Mux that locks itself against its handlers breaks no clause of it)
+			q.Sub, q.Lazy = Pick(r, []int{0, 0, 1, 2}), r.Chance(30)
 			if i%5 == 3 {
 				m.installNoRoute() // the no-route handler is replaced while Stores that served earlier requests are pooled
 			}
